@@ -39,9 +39,10 @@ type (
 	}
 	SIndex struct{ X, I SExpr }
 	SQuant struct {
-		Forall bool
-		Vars   []SVar
-		Body   SExpr
+		Forall   bool
+		Vars     []SVar
+		Body     SExpr
+		Triggers []SExpr // optional explicit pattern (one multi-pattern)
 	}
 	SAssert struct { // x.(T)
 		X    SExpr
@@ -381,7 +382,7 @@ func (p *sparser) parsePrimary() SExpr {
 				if n.kind != "id" {
 					panic(fmt.Errorf("expected bound variable name in %q", p.src))
 				}
-				ty := p.parseTypeText(",", "::")
+				ty := p.parseTypeText(",", "::", "{")
 				if ty == "" {
 					ty = "int"
 				}
@@ -390,9 +391,19 @@ func (p *sparser) parsePrimary() SExpr {
 					break
 				}
 			}
+			var trig []SExpr
+			if p.accept("{") {
+				for {
+					trig = append(trig, p.parseExpr())
+					if !p.accept(",") {
+						break
+					}
+				}
+				p.expect("}")
+			}
 			p.expect("::")
 			body := p.parseExpr()
-			return &SQuant{t.s == "forall", vars, body}
+			return &SQuant{t.s == "forall", vars, body, trig}
 		}
 		return &SIdent{t.s}
 	case "op":
@@ -421,6 +432,8 @@ func (p *sparser) parsePrimary() SExpr {
 // ---- contract files
 
 type Clause struct {
+	Local   bool // post-condition over the function's locals: an obligation of the function, not visible to callers
+	Witness map[string]SExpr // hints: witnesses for the outermost existential(s) of the clause
 	Label string
 	Expr  SExpr
 	Text  string
@@ -440,6 +453,7 @@ type LetDef struct {
 }
 
 type AssignsItem struct {
+	Computed bool   // the write set computed from the function's own body (plus whatever else is listed)
 	Callback string // effects(<named func type>): whatever that callback type's contract assigns
 	All   bool
 	Text  string
@@ -477,6 +491,7 @@ type Contract struct {
 	Iface      bool // contract for an interface method
 	GhostCalls []Clause
 	Records    []Clause // history tokens: uninterpreted predicates asserted of the call's arguments/results (assumed at call sites, nothing to check)
+	Forget     []string // "callee" or "callee:label": callee ensures that are not imported when verifying this function (keeps queries small)
 	Uses       []string // axioms to include when verifying this function
 	Implements []string // pkg.Iface.Method interface contracts this function must satisfy
 	Probes     []LetDef // replay probes: named spec expressions evaluated in the entry state
@@ -537,7 +552,7 @@ type SpecFile struct {
 	Lemmas    []*Lemma
 }
 
-var keywordRe = regexp.MustCompile(`^(package|func|interface|requires|ensures|assigns|invariant|decreases|loop|pure|pred|axiom|ghost|nopanic|let|letold|reads|trusted|callback|cb_requires|cb_ensures|cb_assigns|cb_pure|inline|opaque|modifies|implements|lemma|call|assert|probe|uses|records)\b`)
+var keywordRe = regexp.MustCompile(`^(package|func|interface|requires|ensures|assigns|invariant|decreases|loop|pure|pred|axiom|ghost|nopanic|let|letold|reads|trusted|callback|cb_requires|cb_ensures|cb_assigns|cb_pure|inline|opaque|modifies|implements|lemma|call|assert|probe|uses|records|witness|forget|checks)\b`)
 
 var labelRe = regexp.MustCompile(`^\[([A-Za-z0-9_./-]+)\]\s*`)
 
@@ -604,6 +619,10 @@ func ParseSpecFile(path string, data []byte, defaultPkg string) (*SpecFile, erro
 				items = append(items, AssignsItem{All: true, Text: part})
 				continue
 			}
+			if part == "computed" {
+				items = append(items, AssignsItem{Computed: true, Text: part})
+				continue
+			}
 			if strings.HasPrefix(part, "effects(") && strings.HasSuffix(part, ")") {
 				items = append(items, AssignsItem{Callback: strings.TrimSpace(part[8 : len(part)-1]), Text: part})
 				continue
@@ -656,6 +675,8 @@ func ParseSpecFile(path string, data []byte, defaultPkg string) (*SpecFile, erro
 				return nil, err
 			}
 			curLemma.Steps = append(curLemma.Steps, LemmaStep{Clause: cl})
+		case "forget":
+			cur.Forget = append(cur.Forget, strings.Fields(strings.ReplaceAll(s.text, ",", " "))...)
 		case "uses":
 			names := strings.Fields(strings.ReplaceAll(s.text, ",", " "))
 			if curLemma != nil {
@@ -682,12 +703,48 @@ func ParseSpecFile(path string, data []byte, defaultPkg string) (*SpecFile, erro
 			sf.Contracts = append(sf.Contracts, cur)
 			curLoop = nil
 			curCB = nil
+		case "witness":
+			// witness [label] k := expr   (attaches to the ensures clause with that label)
+			text := s.text
+			label := ""
+			if m := labelRe.FindStringSubmatch(text); m != nil {
+				label = m[1]
+				text = text[len(m[0]):]
+			}
+			i := strings.Index(text, ":=")
+			if i < 0 || cur == nil {
+				return nil, fmt.Errorf("%s:%d: witness [label] name := expr", path, s.line)
+			}
+			e, err := ParseSpecExpr(text[i+2:])
+			if err != nil {
+				return nil, fmt.Errorf("%s:%d: %v", path, s.line, err)
+			}
+			found := false
+			for k := range cur.Ensures {
+				if cur.Ensures[k].Label == label {
+					if cur.Ensures[k].Witness == nil {
+						cur.Ensures[k].Witness = map[string]SExpr{}
+					}
+					cur.Ensures[k].Witness[strings.TrimSpace(text[:i])] = e
+					found = true
+				}
+			}
+			if !found {
+				return nil, fmt.Errorf("%s:%d: witness for unknown ensures label %q", path, s.line, label)
+			}
 		case "records":
 			cl, err := mkClause(s)
 			if err != nil {
 				return nil, err
 			}
 			cur.Records = append(cur.Records, cl)
+		case "checks":
+			cl, err := mkClause(s)
+			if err != nil {
+				return nil, err
+			}
+			cl.Local = true
+			cur.Ensures = append(cur.Ensures, cl)
 		case "requires", "ensures", "invariant", "decreases", "cb_requires", "cb_ensures":
 			if cur == nil && curLemma != nil && s.kw == "requires" {
 				cl, err := mkClause(s)
